@@ -118,13 +118,16 @@ type AttInst struct {
 	singles  map[string]string // "validator/epoch" -> data of the first accepted single vote
 	prunedLT common.Epoch      // everything with target epoch < prunedLT has been pruned
 	key      string
+	// aggVoted["validator/epoch"] = data of the accepted aggregate through which the validator voted in that epoch
+	aggVoted map[string]string
+	aggRoots map[string]bool // data names that have an accepted aggregate
 }
 
 type AttHarness struct{}
 
 func (AttHarness) Name() string { return "attestation-pool" }
 func (AttHarness) Fresh() seqx.Instance {
-	return &AttInst{p: pool.NewAttestationPool(spec), singles: map[string]string{}}
+	return &AttInst{p: pool.NewAttestationPool(spec), singles: map[string]string{}, aggVoted: map[string]string{}, aggRoots: map[string]bool{}}
 }
 
 func (in *AttInst) Enabled() []fmt.Stringer {
@@ -183,6 +186,18 @@ func (in *AttInst) Apply(op fmt.Stringer, observe bool) (fs []seqx.Finding, outc
 			}
 		}
 		in.acc = keep
+		for k := range in.aggVoted {
+			var v, e uint64
+			fmt.Sscanf(k, "%d/%d", &v, &e)
+			if common.Epoch(e) < min {
+				delete(in.aggVoted, k)
+			}
+		}
+		for name := range in.aggRoots {
+			if _, known := datas[name]; known && datas[name].Target.Epoch < min {
+				delete(in.aggRoots, name)
+			}
+		}
 		outcome = "prune"
 	case OpAtt:
 		d := datas[o.Data]
@@ -203,6 +218,11 @@ func (in *AttInst) Apply(op fmt.Stringer, observe bool) (fs []seqx.Finding, outc
 		in.added = append(in.added, accepted{o.Data, o.Bits, o.Sig, false, err == nil})
 		if !wellFormed {
 			// malformed input: only "no panic"; if it was accepted it must not corrupt anything (observe)
+			if err == nil {
+				// the pool accepted something the statement does not cover: which validators it booked for it is not
+				// defined, the aggregate-conflict clauses are off for the rest of this path
+				in.aggRoots["<malformed accepted>"] = true
+			}
 			break
 		}
 		if ones(o.Bits) == 1 {
@@ -215,8 +235,37 @@ func (in *AttInst) Apply(op fmt.Stringer, observe bool) (fs []seqx.Finding, outc
 			} else if err == nil {
 				in.singles[k] = o.Data
 			}
-		} else if err == nil {
-			in.acc = append(in.acc, accepted{o.Data, o.Bits, o.Sig, false, true})
+		} else {
+			// aggregate for a data root that has no aggregate yet: if EVERY participant already voted for other data in
+			// this epoch (through accepted aggregates) the conflict is reported; if somebody is new it is stored
+			var members []string
+			allConflict := true
+			for i, c := range o.Bits {
+				if c == '1' {
+					k := fmt.Sprintf("%d/%d", comm[i], d.Target.Epoch)
+					members = append(members, k)
+					if prev, ok := in.aggVoted[k]; !ok || prev == o.Data {
+						allConflict = false
+					}
+				}
+			}
+			if !in.aggRoots[o.Data] && !in.aggRoots["<malformed accepted>"] && d.Target.Epoch >= in.prunedLT {
+				if allConflict && err == nil {
+					add("aggregate-double-vote-not-reported", fmt.Sprintf("every participant of this aggregate already voted for other data in epoch %d (%v), but it was accepted without error", d.Target.Epoch, members))
+				}
+				if !allConflict && err != nil {
+					add("aggregate-refused", fmt.Sprintf("an aggregate with a participant that has not voted in epoch %d yet was refused: %v", d.Target.Epoch, err))
+				}
+			}
+			if err == nil {
+				in.acc = append(in.acc, accepted{o.Data, o.Bits, o.Sig, false, true})
+				in.aggRoots[o.Data] = true
+				for _, k := range members {
+					if _, ok := in.aggVoted[k]; !ok {
+						in.aggVoted[k] = o.Data
+					}
+				}
+			}
 		}
 		// exact duplicate (same data, bits, signature added before): no query result may change
 		dup := false
@@ -247,7 +296,7 @@ func (in *AttInst) Apply(op fmt.Stringer, observe bool) (fs []seqx.Finding, outc
 }
 
 func (in *AttInst) mkKey() string {
-	return fmt.Sprintf("%v|%v|%v|%d|", in.added, in.acc, in.singles, in.prunedLT) + dump.String(in.p, dumpOpts)
+	return fmt.Sprintf("%v|%v|%v|%d|%v|%v|", in.added, in.acc, in.singles, in.prunedLT, in.aggVoted, in.aggRoots) + dump.String(in.p, dumpOpts)
 }
 func (in *AttInst) Key() string { return in.key }
 
